@@ -1476,3 +1476,88 @@ func (p *Prog) replayWitness(o checkOpts, w *Witness) (bool, string) {
 }
 
 var _ = utf8.RuneError
+
+// ---------------------------------------------------------------------------
+// witnesslist FUNC PKG KIND ARG : "input" "input" ...
+//
+// Inputs worth trying on the real code when an obligation of FUNC fails and neither a recorded
+// finding nor the witness search produced a failing input: boundary values taken from the property
+// statement (DEL, C1 controls, noncharacters, partial escapes, ...). Each is run through the replay
+// kind KIND of package PKG, whose oracle is written from the statement. Like the witness search this
+// runs only after a failure and decides nothing.
+type witnessList struct {
+	Func, Pkg, Kind, Arg string
+	Inputs              []string
+}
+
+func (p *Prog) witnessLists() []witnessList {
+	var out []witnessList
+	for _, r := range p.spec.Raw["witnesslist"] {
+		text := r.Text
+		k := strings.Index(text, " : ")
+		if k < 0 {
+			continue
+		}
+		f := strings.Fields(text[:k])
+		if len(f) != 4 {
+			continue
+		}
+		wl := witnessList{Func: f[0], Pkg: f[1], Kind: f[2], Arg: f[3]}
+		rest := strings.TrimSpace(text[k+3:])
+		for len(rest) > 0 {
+			if rest[0] != '"' {
+				break
+			}
+			q, err := strconv.QuotedPrefix(rest)
+			if err != nil {
+				break
+			}
+			v, err := strconv.Unquote(q)
+			if err != nil {
+				break
+			}
+			wl.Inputs = append(wl.Inputs, v)
+			rest = strings.TrimSpace(rest[len(q):])
+		}
+		out = append(out, wl)
+	}
+	return out
+}
+
+// tryWitnessLists runs the listed inputs of the function an obligation belongs to.
+func (p *Prog) tryWitnessLists(o checkOpts, ob *Obligation) (recipe map[string]interface{}, detail string, found bool) {
+	if ob.fx == nil {
+		return nil, "", false
+	}
+	if r, d, ok := p.tryWitnessListsFor(o, ob.fx.short); ok {
+		return r, d, ok
+	}
+	return p.tryWitnessListsFor(o, ob.fx.key)
+}
+
+func (p *Prog) tryWitnessListsFor(o checkOpts, fn string) (recipe map[string]interface{}, detail string, found bool) {
+	for _, wl := range p.witnessLists() {
+		if wl.Func != fn {
+			continue
+		}
+		var jobs []replayJob
+		for i, in := range wl.Inputs {
+			jobs = append(jobs, replayJob{ID: fmt.Sprint(i), Kind: wl.Kind, Args: map[string]string{wl.Arg: in}})
+		}
+		rs, err := p.runHarness(o, wl.Pkg, jobs)
+		if err != nil {
+			continue
+		}
+		for _, r := range rs {
+			if !r.OK {
+				idx, _ := strconv.Atoi(r.ID)
+				if idx < 0 || idx >= len(wl.Inputs) {
+					continue
+				}
+				return map[string]interface{}{"pkg": wl.Pkg, "kind": wl.Kind, "arg": wl.Arg, "inputs": []string{wl.Inputs[idx]}},
+					"REPRODUCED on the real code (listed boundary input): " + r.Detail, true
+			}
+		}
+	}
+	return nil, "", false
+}
